@@ -15,7 +15,9 @@ import tempfile
 VERIF = os.path.dirname(os.path.dirname(os.path.abspath(__file__)))
 
 
-def make_scratch(repo='/repo'):
+def make_scratch(repo=None):
+    # VERIF_BASE_REPO: tree the scratch copies are taken from (a snapshot of /repo for background sweeps)
+    repo = repo or os.environ.get('VERIF_BASE_REPO') or '/repo'
     d = tempfile.mkdtemp(prefix='verif-mut-')
     subprocess.run(['rsync', '-a', '--exclude', 'target', '--exclude', '.git', repo + '/', d + '/'],
                    check=True)
